@@ -1,5 +1,6 @@
 //! replay <scenario> — exit 1 and print `REPRODUCED: ...` if the history violates the property on the real code,
 //! exit 0 and print `NOT-REPRODUCED` otherwise.  `replay --list` lists the scenarios.
+mod models;
 use deadpool::managed::{self, Metrics, RecycleResult, Timeouts};
 use deadpool::unmanaged;
 use deadpool::verif;
@@ -251,6 +252,12 @@ fn scenarios() -> Vec<(&'static str, fn() -> Outcome)> {
         ("mg_resize_close_race", mg_resize_close_race),
         ("mg_close_resize_race", mg_close_resize_race),
         ("um_status_waiting", um_status_waiting),
+        // differential tests of the trusted primitive models (Err = the model disagrees with the real primitive)
+        ("model_semaphore", models::model_semaphore),
+        ("model_vecdeque", models::model_vecdeque),
+        ("model_duration", models::model_duration),
+        ("model_pmutex", models::model_pmutex),
+        ("model_atomics", models::model_atomics),
     ]
 }
 
